@@ -615,7 +615,7 @@ func callWorker(req N) (resp N) {
 
 	var machine *vm.VirtualMachine
 	hostCtx := baseCtx
-	if src == "ctx" {
+	if src == "ctx" || src == "ctxwarm" {
 		hostCtx = ros.WithOS(baseCtx, host)
 	}
 	globals := map[string]any{
@@ -681,7 +681,24 @@ func callWorker(req N) (resp N) {
 		}
 		machine = vm.New(code, cfg.VMOpts()...)
 		var res object.Object
-		err = machine.Run(hostCtx)
+		if src == "ctxwarm" {
+			// the VM is used once with no OS at all (no option, plain context) before the host supplies
+			// its OS in the context: run a trivial code object, then the script
+			warm, werr := rparser.Parse(baseCtx, "1")
+			if werr == nil {
+				var wcode *compiler.Code
+				if wcode, werr = compiler.Compile(warm, cfg.CompilerOpts()...); werr == nil {
+					werr = machine.RunCode(baseCtx, wcode)
+				}
+			}
+			if werr != nil {
+				status, msg = "nocompile", "warm-up: "+werr.Error()
+				return
+			}
+			err = machine.RunCode(hostCtx, code)
+		} else {
+			err = machine.Run(hostCtx)
+		}
 		if err == nil {
 			if hostclone {
 				var fobj object.Object
